@@ -39,6 +39,9 @@ func (vt *Model) osc(data string) {
 			vt.pty.WriteString(resp)
 		}
 	case "52":
+		if vt.vx == nil {
+			return
+		}
 		_, val, _ := cutString(val, ";")
 		decodedBytes, err := base64.StdEncoding.DecodeString(val)
 		if err != nil {
